@@ -20,9 +20,9 @@ func init() {
 			"R01-optable/R01-layout — every opcode constant has a non-nil jumpTable handler and an opProps row, the operand fields derived from opcode.go's getters/setters tile the 32-bit word and agree with the size/max constants; " +
 			"R01-decode — every shift/mask a VM handler applies to an instruction word is one of the canonical field extractions, the fields a handler decodes fit the instruction format (ABC/ABx/ASbx) declared for its opcode, and sBx is decoded with the encoder's bias; " +
 			"R01-alloc — the number-boxing allocator only appends to its page and replaces it by a fresh one, preloads is written only by init; R01-emit — every opcode the compiler emits is emitted through the encoder matching its declared format and every opcode has an emission site. " +
-			"R01-assign — in the compiler every shortcut that stores into an assignment target, or leaves a local to be read in place, while right-hand sides are still being compiled is guarded by 'exactly one target' (multiple assignment evaluates everything before any store); R01-operands — in every VM handler all RK operand reads precede the handler's first register write (an operand may live in the destination register, or in a register the handler also writes); R01-threading — the jump-threading pass, which patches in place in ascending pc order and follows chains through the live code, interprets an sBx as a label only for a word at or after the current pc (earlier words are already patched and hold distances); R01-peephole — a peephole that removes or retargets the last emitted MOVE/LOADK tests that word's destination register as well as its opcode (the last word may be a capture pseudo-instruction of a CLOSURE or the load of another register); R01-callregs — a call is laid out in fresh registers starting at the caller-supplied temporary (never in the register of an existing local, which the callee expression or the arguments may still read), and the explist of a generic for is assigned to exactly the three hidden variables; R01-kmv — an operand obtained through constant propagation (it may be an RK-encoded constant index) is emitted only in operand positions that the VM handler of that opcode reads with rkValue/rkString, never in an A field or a plain register operand; R15-mathmap luaModulo shape shared (the % operator's sign adjustment). NOT decided: that the instruction sequence emitted for a statement/expression computes the Lua result (register allocation, jump threading, coercions, evaluation order) — a statement about run-time values.",
+			"R01-assign — in the compiler every shortcut that stores into an assignment target, or leaves a local to be read in place, while right-hand sides are still being compiled is guarded by 'exactly one target' (multiple assignment evaluates everything before any store); R01-operands — in every VM handler all RK operand reads precede the handler's first register write (an operand may live in the destination register, or in a register the handler also writes); R01-threading — the jump-threading pass, which patches in place in ascending pc order and follows chains through the live code, interprets an sBx as a label only for a word at or after the current pc (earlier words are already patched and hold distances); R01-peephole — a peephole that removes or retargets the last emitted MOVE/LOADK tests that word's destination register as well as its opcode (the last word may be a capture pseudo-instruction of a CLOSURE or the load of another register); R01-callregs — a call is laid out in fresh registers starting at the caller-supplied temporary (never in the register of an existing local, which the callee expression or the arguments may still read), and the explist of a generic for is assigned to exactly the three hidden variables; R01-kmv — an operand obtained through constant propagation (it may be an RK-encoded constant index) is emitted only in operand positions that the VM handler of that opcode reads with rkValue/rkString, never in an A field or a plain register operand; R01-constructor — in a table constructor a SETLIST is open-ended (B = 0) only when the last field is a positional call or '...', and the count of items waiting in registers is reset by every SETLIST, so a keyed field cannot trigger a second store of a batch; a single value taken from '...' into an existing local goes through a temporary (VARARG moves the stack top); R15-mathmap luaModulo shape shared (the % operator's sign adjustment). NOT decided: that the instruction sequence emitted for a statement/expression computes the Lua result (register allocation, jump threading, coercions, evaluation order) — a statement about run-time values.",
 		Trusted: []string{"opcode semantics are those of the handler bodies; only the encoding/decoding agreement is checked"},
-		Rules:   []func(*Ctx){ruleOptable, ruleLayout, ruleDecode, ruleFold, ruleAlloc, ruleEmit, ruleOperandOrder, ruleModuloSign, ruleAssign, ruleThreading, rulePeephole, ruleCallFrameRegs, ruleKmvFlow},
+		Rules:   []func(*Ctx){ruleOptable, ruleLayout, ruleDecode, ruleFold, ruleAlloc, ruleEmit, ruleOperandOrder, ruleModuloSign, ruleAssign, ruleThreading, rulePeephole, ruleCallFrameRegs, ruleKmvFlow, ruleConstructor},
 	})
 }
 
@@ -1569,4 +1569,189 @@ func ruleKmvFlow(c *Ctx) {
 			c.ok(R, key, p.ipos(cl), fmt.Sprintf("flows to %d RK-capable operand position(s) only", nuse))
 		}
 	}
+}
+
+
+// ruleConstructor: F49/F50.
+func ruleConstructor(c *Ctx) {
+	const R = "R01-constructor"
+	c.floor(R, 3)
+	p := c.P
+	opSetlist, opVararg, opMove := p.op("OP_SETLIST"), p.op("OP_VARARG"), p.op("OP_MOVE")
+	if fn := c.need(R, "lua", "compileTableExpr"); fn != nil {
+		g := p.G(fn)
+		keyF := p.Field("ast", "Field", "Key")
+		var emits []emitSite
+		for _, e := range p.emitSites(fn) {
+			if e.emits(opSetlist) {
+				emits = append(emits, e)
+			}
+		}
+		okOpen, okReset := len(emits) > 0, len(emits) > 0
+		for _, e := range emits {
+			// B operand: a phi of {pending-count, 0}; the 0 arrives only under a flag that is set where the
+			// field has no key
+			bv := stripConv(e.Args[2])
+			ph, isPhi := bv.(*ssa.Phi)
+			if !isPhi {
+				okOpen = false
+				continue
+			}
+			var counter ssa.Value
+			for k, ed := range ph.Edges {
+				if kk, ok := constInt(ed); ok && kk == 0 {
+					flagOK := false
+					for _, cd := range g.CondsOnEdge(ph.Block().Preds[k], ph.Block()) {
+						fl, ok := cd.V.(*ssa.Phi)
+						if !ok || !cd.Sense {
+							continue
+						}
+						// every 'true' entering the flag comes from a block under Key == nil
+						allTrue := true
+						var walk func(x *ssa.Phi, d int)
+						seen := map[*ssa.Phi]bool{}
+						walk = func(x *ssa.Phi, d int) {
+							if seen[x] || d > 6 {
+								return
+							}
+							seen[x] = true
+							for j, e2 := range x.Edges {
+								if b, ok := constBool(e2); ok {
+									if b {
+										under := false
+										for _, c2 := range g.CondsOnEdge(x.Block().Preds[j], x.Block()) {
+											if bo, ok := c2.V.(*ssa.BinOp); ok {
+												if _, isKey := loadsField(bo.X, keyF); isKey {
+													if k0, ok := bo.Y.(*ssa.Const); ok && k0.IsNil() && ((bo.Op == token.EQL && c2.Sense) || (bo.Op == token.NEQ && !c2.Sense)) {
+														under = true
+													}
+												}
+											}
+										}
+										if !under {
+											allTrue = false
+										}
+									}
+								} else if p2, ok := e2.(*ssa.Phi); ok {
+									walk(p2, d+1)
+								} else {
+									allTrue = false
+								}
+							}
+						}
+						walk(fl, 0)
+						if allTrue {
+							flagOK = true
+						}
+					}
+					if !flagOK {
+						okOpen = false
+					}
+				} else {
+					counter = ed
+				}
+			}
+			// the counter is reset on the path that continues after the SETLIST: its loop-header phi has a
+			// constant-0 edge coming from a block the emission dominates
+			cph, _ := stripConv(counter).(*ssa.Phi)
+			for cph != nil && !isLoopHeaderPhi(g, cph) {
+				var next *ssa.Phi
+				for _, ed := range cph.Edges {
+					if x, ok := ed.(*ssa.Phi); ok {
+						next = x
+					}
+				}
+				cph = next
+			}
+			reset := false
+			if cph != nil {
+				for k, ed := range cph.Edges {
+					if zeroThroughPhis(ed, 0) && g.BlockDom(e.In.Block(), cph.Block().Preds[k]) {
+						reset = true
+					}
+					_ = k
+				}
+				// the zero may arrive through an intermediate phi that merges the flush and no-flush paths
+				if !reset {
+					for _, ed := range cph.Edges {
+						if mp, ok := ed.(*ssa.Phi); ok {
+							for k2, e2 := range mp.Edges {
+								if kk, ok := constInt(e2); ok && kk == 0 && g.BlockDom(e.In.Block(), mp.Block().Preds[k2]) {
+									reset = true
+								}
+							}
+						}
+					}
+				}
+			}
+			if !reset {
+				okReset = false
+			}
+		}
+		pos := p.pos(fn.Pos())
+		if len(emits) > 0 {
+			pos = p.ipos(emits[0].In)
+		}
+		c.check(okOpen, R, "compileTableExpr:open-ended-only-for-positional-last", pos, "SETLIST gets B = 0 only under the flag set by a positional call or '...' in last position", "compileTableExpr makes the final SETLIST open-ended although the last field has a key: {f(), x = g()} sweeps g's result (and whatever lies up to the stack top) into the array part")
+		c.check(okReset, R, "compileTableExpr:pending-reset-by-flush", pos, "the number of items waiting in registers is set to 0 by every SETLIST", "compileTableExpr decides to flush from the total number of positional items: after a full batch every later keyed field satisfies the test again and the batch is stored a second time from registers the keyed field has overwritten ({1,…,50, x = g()} gives t[1] == 'G')")
+	}
+	if fn := c.need(R, "lua", "compileExpr"); fn != nil {
+		var regParam ssa.Value = fn.Params[1]
+		viaTemp := false
+		emits := p.emitSites(fn)
+		for _, e := range emits {
+			if !e.emits(opVararg) || len(e.Args) < 3 {
+				continue
+			}
+			a := resolve(e.Args[1])
+			if a != regParam && !entryLoadOfParamAny(fn, a, regParam) {
+				continue
+			}
+			if k, ok := constInt(e.Args[2]); !ok || k != 2 {
+				continue
+			}
+			// followed by a MOVE from that temporary
+			for _, m := range emits {
+				if m.emits(opMove) && m.In.Block() == e.In.Block() && p.G(fn).Dominates(e.In, m.In) {
+					viaTemp = true
+				}
+			}
+		}
+		c.check(viaTemp, R, "compileExpr:single-vararg-into-local-via-temporary", p.pos(fn.Pos()), "VARARG t 2; MOVE local t exists for a target below other live registers", "compileExpr emits VARARG straight into an existing local: VARARG moves the stack top to just above its result, so the locals declared after the target are wiped (x = (...) with y, z declared later: y and z become Go nil)")
+	}
+}
+
+func isLoopHeaderPhi(g *PCFG, ph *ssa.Phi) bool {
+	for _, li := range g.loops() {
+		if li.Header == ph.Block() {
+			return true
+		}
+	}
+	return false
+}
+
+func zeroThroughPhis(v ssa.Value, d int) bool {
+	if k, ok := constInt(v); ok && k == 0 {
+		return true
+	}
+	return false
+}
+
+// entryLoadOfParamAny: v loads the spill cell of param anywhere, the cell never being stored again
+// except with values derived from itself (reg += n).
+func entryLoadOfParamAny(fn *ssa.Function, v, param ssa.Value) bool {
+	u, ok := v.(*ssa.UnOp)
+	if !ok || u.Op != token.MUL {
+		return false
+	}
+	al, ok := u.X.(*ssa.Alloc)
+	if !ok {
+		return false
+	}
+	for _, r := range *al.Referrers() {
+		if st, ok := r.(*ssa.Store); ok && st.Addr == ssa.Value(al) && st.Val == param {
+			return true
+		}
+	}
+	return false
 }
